@@ -155,7 +155,7 @@ def axioms_audit(prop):
         d = {'name': name, 'ok': False}
         if rest is None:
             d['why'] = 'missing (audit file did not elaborate: %s)' % raw[:200]
-        elif re.search(r'error', rest):
+        elif re.search(r': error[:(]', rest):
             d['why'] = 'missing or does not compile: ' + norm_stmt(rest)[:200]
         else:
             marker = "'%s'" % name
